@@ -71,6 +71,10 @@ def _ts_value(spec, dt, dtype):
     """time inside [0, dt] as the float of the working dtype that the functions will see"""
     if spec[0] == "f":
         v = dt * spec[1] / spec[2]
+    elif spec[0] == "n":
+        # distance 10^-k * dt from the singular end of the linear extrapolation in use (strictly inside)
+        d = 10.0 ** (-int(spec[1]))
+        v = dt * (1.0 - d) if spec[2] == "hi" else dt * d
     else:
         v = dt * spec[1]
     v = ND[dtype](v)
@@ -124,13 +128,22 @@ def run_interp(case):
         specs = [specs[0]] * n
     # documented divisions: linear_forward needs t_s > 0, linear_backward t_s < dt; keep the
     # amplification dt/t_s (resp. dt/(dt - t_s)) bounded so a float tolerance can be stated
+    # float32: stay dt/AMP_MAX away from the singular end.  float64: any time strictly inside the step is
+    # asserted with a tolerance conditioned on the actual amplification (near-end stratum 1e-3 .. 1e-9 dt)
+    near_end = False
     fixed = []
     for s in specs:
+        if s[0] == "n":
+            s = ["n", s[1], "hi" if en == "linear_backward" else "lo"]
         v = _ts_value(s, dt, dtype)
-        if en == "linear_forward" and float(v) < dt / AMP_MAX:
-            v = _ts_value(["f", 1, 4], dt, dtype)
-        if en == "linear_backward" and float(v) > dt * (1 - 1.0 / AMP_MAX):
-            v = _ts_value(["f", 3, 4], dt, dtype)
+        if en == "linear_forward":
+            if float(v) <= 0.0 or (dtype == "float32" and float(v) < dt / AMP_MAX):
+                v = _ts_value(["f", 1, 4], dt, dtype)
+            near_end |= float(v) < dt / AMP_MAX
+        if en == "linear_backward":
+            if float(v) >= dt or (dtype == "float32" and float(v) > dt * (1 - 1.0 / AMP_MAX)):
+                v = _ts_value(["f", 3, 4], dt, dtype)
+            near_end |= float(v) > dt * (1 - 1.0 / AMP_MAX)
         fixed.append(v)
     ts = np.array(fixed, dtype=ND[dtype]).reshape(shape)
     ts_arg = ts.reshape(-1)[0].reshape(()) if case["scalar_ts"] else ts
@@ -172,10 +185,16 @@ def run_interp(case):
         tol = np.zeros(shape)
     elif en == "linear_forward":
         a_eff = _np(x0).reshape(shape)
-        tol = 16 * eps * (np.abs(a_eff) + np.abs(s64) + np.abs(n64)) * (1 + dt / np.maximum(t64, dt / AMP_MAX)) + 1e-300
+        # X(dt) = p + (s-p)/t_s*dt carries an absolute error ~ eps |s-p| dt/t_s, which interp_linear multiplies
+        # by t_s/dt again: no net amplification (measured <= 1.7 eps*mag over 4e5 draws down to t_s = 1e-9 dt);
+        # the factor below is a generous cap
+        tol = 16 * eps * (np.abs(a_eff) + np.abs(s64) + np.abs(n64)) * (1 + np.minimum(dt / t64, AMP_MAX)) + 1e-300
     elif en == "linear_backward":
         b_eff = _np(x1).reshape(shape)
-        tol = 16 * eps * (np.abs(p64) + np.abs(s64) + np.abs(b_eff)) * (1 + dt / np.maximum(dt - t64, dt / AMP_MAX)) + 1e-300
+        # X(0) = n - (n-s)/(dt-t_s)*dt has magnitude |n-s| A with A = dt/(dt-t_s); its rounding (and that of
+        # slope*dt, (X(dt)-X(0))/dt*t_s with t_s/dt ~ 1, and the final sum) gives |error| <~ eps (3|n| + 9|n-s| A);
+        # measured worst case over 4e5 float64 draws with A up to 1e9: 1.2 eps (|p|+|s|+|n|)(1+A)
+        tol = 16 * eps * (np.abs(p64) + np.abs(s64) + np.abs(b_eff)) * (1 + dt / (dt - t64)) + 1e-300
     else:
         tol = 16 * eps * (1 + t64 / (tc * dt)) * np.abs(s64) + 1e-300
     with np.errstate(invalid="ignore"):
@@ -200,7 +219,7 @@ def run_interp(case):
 
     # ---- linear interpolation between the brackets, equal to them at the ends
     if nonfin:
-        return _interp_tail(case, F, tp, tn, tts, dt, shape, p64, n64, s64, t64, ts, decisive, en, inn, dtype, amb, True)
+        return _interp_tail(case, F, tp, tn, tts, dt, shape, p64, n64, s64, t64, ts, decisive, en, inn, dtype, amb, True, near_end)
     with impl("interp_linear"):
         lin = F.interp_linear(tp, tn, tts, dt)
         lin0 = F.interp_linear(tp, tn, torch.zeros_like(tts), dt)
@@ -222,7 +241,7 @@ def run_interp(case):
     check(bool((np.abs(g1 - n64) <= btol).all()), "linear:end1",
           lambda: f"interp_linear at t_s=dt={dt}: {g1.tolist()} != next {n64.tolist()}")
 
-    return _interp_tail(case, F, tp, tn, tts, dt, shape, p64, n64, s64, t64, ts, decisive, en, inn, dtype, amb, False)
+    return _interp_tail(case, F, tp, tn, tts, dt, shape, p64, n64, s64, t64, ts, decisive, en, inn, dtype, amb, False, near_end)
 
 
 def _same(a, b):
@@ -231,7 +250,7 @@ def _same(a, b):
         return (a == b) | (np.isnan(a) & np.isnan(b))
 
 
-def _interp_tail(case, F, tp, tn, tts, dt, shape, p64, n64, s64, t64, ts, decisive, en, inn, dtype, amb, nonfin):
+def _interp_tail(case, F, tp, tn, tts, dt, shape, p64, n64, s64, t64, ts, decisive, en, inn, dtype, amb, nonfin, near_end=False):
     # ---- positional interpolations return one of the brackets
     for name in ("previous", "next", "nearest"):
         with impl("interp_" + name):
@@ -257,6 +276,8 @@ def _interp_tail(case, F, tp, tn, tts, dt, shape, p64, n64, s64, t64, ts, decisi
         cls.append("nearest:exact-half")
     if adj != "none" and en.startswith("linear_"):
         cls.append("adjust")
+    if near_end:
+        cls.append(f"{en}:near-singular-end")
     if nonfin:
         cls.append("nonfinite-bracket")
         if np.isnan(p64).any() or np.isnan(n64).any():
@@ -278,11 +299,18 @@ _tsspec = st.one_of(
 
 
 _nf = st.sampled_from([None, None, "inf", "-inf", "nan"])
+_near = st.sampled_from([["n", 3], ["n", 5], ["n", 7], ["n", 9]])
 
 
 @st.composite
 def interp_case(draw, tier="quick"):
     c = _interp_base(draw)
+    if PAIRS[c["pair"]][0] in ("linear_forward", "linear_backward") and draw(st.integers(0, 2)) == 0:
+        # float64 only: sample times 1e-3 .. 1e-9 dt away from (never at) the singular end of the extrapolation
+        c["dtype"] = "float64"
+        c["ts"] = draw(st.lists(st.one_of(_near, _near, _tsspec), min_size=1, max_size=6))
+        if not any(t[0] == "n" for t in c["ts"]):
+            c["ts"][0] = ["n", 7]
     if c["pair"] in SELECT_PAIRS and draw(st.integers(0, 2)) == 0:
         c["nonfinite"] = {"prev": draw(st.lists(_nf, min_size=1, max_size=4)),
                           "next": draw(st.lists(_nf, min_size=1, max_size=4))}
@@ -848,7 +876,8 @@ LEGS = [
         rule="one of the 11 matching extrap/interp pairs on generated brackets, sample and t_s in [0, dt] "
              "(strata 0, dt, dt/2, k/8, k/3, 1/64, random; float32/float64; scalar or tensor t_s); for the six selection-type pairs "
              "a third of the cases put +inf / -inf / NaN into bracket values (sample finite): exact round trip, outputs are one of "
-             "the inputs (NaN-aware), nothing asserted for linear/exponential functions there; non-trivial "
+             "the inputs (NaN-aware), nothing asserted for linear/exponential functions there; a third of the linear_forward/backward "
+             "cases are float64 with t_s 1e-3..1e-9 dt from the singular end (tolerance conditioned on dt/(dt-t_s)); non-trivial "
              "when >= 1 element has pairwise distinct prev/next/sample and 0 < t_s < dt outside the nearest band",
     ),
     Leg(
@@ -877,7 +906,7 @@ LEGS = [
 ASSUMPTIONS = [
     "CPU only; float32 results are compared with float64 references inside stated condition-number tolerances "
     "(8-16 ulp of the working dtype times the documented formula's conditioning)",
-    "linear extrapolation is exercised with t_s >= dt/64 (forward) and t_s <= dt(1 - 1/64) (backward): the documented division is unbounded at the excluded end",
+    "linear extrapolation: float32 is exercised with t_s >= dt/64 (forward) and t_s <= dt(1 - 1/64) (backward); float64 strictly inside the step down to 1e-9 dt from the singular end with the round-trip tolerance 16 eps (|p|+|s|+|n|)(1 + dt/(dt - t_s)) (backward; forward has no net amplification); the end itself is excluded (documented division)",
     "nearest pairs within 1e-5 of t_s = dt/2 are counted ambiguous unless t_s == dt/2 exactly with dyadic dt",
     "Poisson integer supports; rate >= 0 with rate == 0 (accepted by Poisson.validate: the degenerate distribution) as its own stratum judged by the identities defined there (pmf = [1,0,..], cdf = 1, mean = variance = 0, no NaN); Normal / LogNormal have only open parameter boundaries (validate rejects scale 0, non-finite values, LogNormal support 0); LogNormal scale <= 1.5 so that the 4801-point grid captures the second moment",
     "non-finite bracket values are only fed to the selection-type functions (interp previous/next/nearest, extrap previous/next/neighbors/nearest); linear / exponential functions are judged on finite data only",
